@@ -7,7 +7,9 @@ cd $WT || exit 2
 git checkout -q -- . ; git apply --check $OUT/$X.diff || { echo "RESULT $OUT/$X apply-failed"; exit 1; }
 build() { cmake -G Ninja -S $WT -B $WT/_b >/dev/null 2>&1 && cmake --build $WT/_b -j8 >$WT/_b/build.log 2>&1; }
 tests() {
-  ctest --test-dir $WT/_b -j4 --timeout 900 >$WT/_b/ctest.log 2>&1 && return 0
+  ctest --test-dir $WT/_b -j4 --timeout 900 -E ProcessTest >$WT/_b/ctest.log 2>&1 || return 1
+  for i in 1 2 3; do (cd $WT/_b && unshare --pid --fork --mount-proc ./ProcessTest >/dev/null 2>&1) && return 0; sleep 2; done
+  return 1
   # only ProcessTest failing? retry it alone (name collision flake on a shared machine)
   if grep -q "The following tests FAILED" $WT/_b/ctest.log && [ "$(grep -c '^\s*[0-9]* - ' $WT/_b/ctest.log)" = "1" ] && grep -q "ProcessTest" $WT/_b/ctest.log; then
     for i in 1 2 3 4 5 6; do (cd $WT/_b && ./ProcessTest >/dev/null 2>&1) && return 0; sleep 3; done
